@@ -235,12 +235,44 @@ def count_case(k, delta):
     return h
 
 
+def _expand(k, site):
+    """thorough tier: the same site on the other item(s) and at every element index"""
+    import re
+
+    out = [site]
+    typ = site[1]
+    names = [site[2]] if site[2] else []
+    nitems = SHAPES[k].get(COUNT_KEY.get(k, ""), len(SHAPES[k].get("events", [])) or 2)
+    if names and nitems >= 2 and not (k == "events" and site[0] == "value"):
+        alt = re.sub(r"(?<=[a-z.])([01])(?=$|\.)", lambda m: "1" if m.group(1) == "0" else "0", names[0], count=1)
+        if alt != names[0]:
+            out.append((site[0] + "_other_item",) + (typ, alt) + tuple(site[3:]))
+    more = []
+    for st in out:
+        if st[1] == "farr":
+            shape, w, idx = st[3]
+            n = 1
+            for d in shape:
+                n *= d
+            idxs = range(n) if n <= 12 else [0, 1, n // 2, n - 2, n - 1]
+            for i in idxs:
+                if i != idx:
+                    more.append((f"{st[0]}_at{i}", st[1], st[2], (shape, w, i)))
+        if st[1] == "iarr":
+            n, code, idx = st[3]
+            for i in range(n):
+                if i != idx:
+                    more.append((f"{st[0]}_at{i}", st[1], st[2], (n, code, i)))
+    return out + more
+
+
 def instances(tier):
     out = []
     for k in SHAPES:
         gapkind = k in ("data3d", "emg", "force3d", "fpdata")
         out.append(Instance(f"{k}.equal", equal_case(k), goals=["done"], cost=64 if gapkind else 4))
-        for site in SITES[k]:
+        sites = SITES[k] if tier == "quick" else [x for st in SITES[k] for x in _expand(k, st)]
+        for site in sites:
             out.append(Instance(f"{k}.differ.{site[0]}", differ_case(k, site), goals=["done"], cost=32 if gapkind else 2))
         if k in COUNT_KEY or k == "events":
             out.append(Instance(f"{k}.count.plus", count_case(k, +1), goals=["done"], cost=64 if gapkind else 2))
